@@ -25,6 +25,11 @@ check("C16", "E1 sched", "model_checking",
       "Six async Elk scenarios x pool sizes 1-3 x queue capacities 1-8 are executed on the real VM with every Mutex/WaitGroup/channel/goroutine operation of vm/promise.go, vm/thread_pool.go and vm/thread.go owned by the scheduler; all schedules with <=2 (thorough 3) preemptions at synchronisation points, and <=1 (thorough 2) with an additional point before every statement of promise.go/thread_pool.go, are enumerated; deadlock (lost wake-up or capacity), host panic and any deviation of the stdout multiset from the sequential expectation are violations.",
       "interpreter code between scheduling points runs atomically; timers not modelled; per-case wall-clock budget can end a configuration early (reported as exhaustive:false with the configurations concerned)")
 
+check("C25", "E1 sched", "model_checking",
+      "stateless schedule exploration (preemption-bounded DFS, ready select cases enumerated) of Elk programs using go/Channel/Mutex/RWMutex/WaitGroup/Once/select on the real VM under a controlled scheduler injected by build overlay",
+      "12 multi-threaded Elk scenarios run on the real VM with every channel, lock, wait-group, once, goroutine-start and select operation of value/channel_of_value.go, value/{mutex,rwmutex,wait_group,once}.go, vm/once.go and vm/thread.go owned by the scheduler; all schedules with <=2 (thorough 3) preemptions are enumerated and each is checked for exactly-once FIFO delivery, select readiness, close semantics, mutual exclusion, run-once, absence of deadlock and of host panics/fatals; 10 single-threaded misuse sequences must raise Elk errors.",
+      "interpreter code between scheduling points runs atomically; unbuffered channels are modelled by verifrt's rendezvous (the real channel is not used for them); timers not modelled")
+
 NOT_YET = "check not built yet in this round (planned, see DESIGN.md section 5)"
 NA = {}
 
